@@ -6,14 +6,16 @@ Case forms (all JSON-able):
   {'op':'unique','ft':FT,'level':LV,'col':[...],'flags':[ri,rv,rc]}
   {'op':'isin','ft':FT,'level':LV,'col':[...],'tests':[...]|None,'tkind':'list'|'set'|'array','via':'method'|'module'}
   FT = 'istr' (col = list of code-point lists) | 'fstr' (col = list of byte lists, 'strlen') |
-       'int32' | 'int8' | 'bool' | 'float32' | 'cat' | 'ts'   (col = ints; float/ts values are quarter units)
+       'int32' | 'int8' | 'bool' | 'float32' | 'cat' | 'ts' | 'int64' | 'float64' | 'uint16'
+       (col = ints; float/ts values are quarter units); 'tkind' may also be 'tuple'
   LV = 'ops' (istr only: the operations.py functions on (indices, values)) | 'mem' (…MemField) | 'h5' (HDF5 field)
   istr/ops cases may carry 'raw': {'indices':[…],'values':[…]} instead of 'col' (malformed stream) and
   'idx0': 1 (an empty column stored as indices=[0] instead of []).
   'ood': 1 marks inputs outside the property's domain (NUL code points, invalid UTF-8, test set None): model vs
   implementation only.
 """
-import itertools
+import itertools, math
+from harness import hot
 
 PROP, NUM = 'C14', 14
 PROPS_FILES = ['Props/C14.v']
@@ -35,7 +37,18 @@ RULE = ('exhaustive small scope: unique on every indexed-string column of length
         'numeric (int32/int8/bool/float32), categorical, timestamp and fixed-string fields: all columns of length <= 4 '
         'over 4 values x 8 flag combinations, isin over all 64 test subsets incl. None; then seeded random longer '
         'columns (up to 60 rows, up to 26 distinct) over a 26-string alphabet (1- to 4-byte characters, prefixes, equal lengths) and a malformed stream '
-        '(NUL code points, invalid UTF-8, inconsistent offsets, test set None). HDF5-backed cases cost ~5 ms each, '
+        '(NUL code points, invalid UTF-8, inconsistent offsets, test set None). Regions beyond the small scope are covered '
+        'systematically: (a) indexed and fixed strings of 255..1000 (thorough: ..4097) UTF-8 bytes on and around the '
+        'multiples of 256, in 1-/2-/3-/4-byte-character encodings, with same-length neighbours differing in the last / '
+        'first byte and lengths congruent mod 256, every distinct value and every absent same-length value looked up alone; '
+        '(b) row counts, distinct counts, multiplicities and test-set sizes 255..300 (thorough: 127..1000); (c) isin on every '
+        'non-indexed field type (incl. int64 at its extremes and around 2^53, float64, uint16) for every column of length '
+        '<= 3 (mem) / <= 2 (HDF5) over 4 values x all 16 subsets of those values accompanied by 24 further members, as '
+        'list / set / ndarray / tuple, so that numpy.isin takes its sort- and table-based algorithms instead of the '
+        'per-element loop, plus collection sizes around the switch-over 10 * rows ** 0.145 for 1..100 rows; (d) every '
+        'small integer literal that is new in the tree under test (harness/hot.py) is planted as byte length, row count, '
+        'distinct count and test-set size (K-1, K, K+1, 2K-1, 2K, 2K+1, 3K), and the random budgets are tripled when any '
+        'library source differs from the recorded tree. HDF5-backed cases cost ~5 ms each, '
         'hence the smaller bounds at that level. Non-trivial = reaches a planted feature.')
 EXHAUSTIVE = {'quick': True, 'thorough': True}
 TRUSTED = ['numpy sort/argsort of str arrays (code-point order, trailing NULs insignificant), np.unique, np.isin and '
@@ -44,7 +57,9 @@ TRUSTED = ['numpy sort/argsort of str arrays (code-point order, trailing NULs in
            'for non-indexed field types the model of the numpy dispatch IS the specification; the theorem for them is '
            'definitional and the evidence is the differential run']
 ASSUMPTIONS = ['strings contain no NUL code point at their end (numpy U/S dtypes drop trailing NULs: finding F-C14b)',
-               'no NaN in float/timestamp columns', 'test-set entries have the field\'s value type or are None']
+               'no NaN in float/timestamp columns',
+               'test-set entries are None or values of the field\'s kind (integers for integer / bool / categorical fields, '
+               'also just outside the column dtype; quarter-unit floats; bytes; str); containers list, set, ndarray, tuple']
 TECHNIQUE = ('Coq proof (faithful model of the indexed-string kernels and their Python drivers = sort/unique/membership '
              'specification over UTF-8 bytes) + exhaustive small-scope differential correspondence against /repo')
 LEVEL_TEXT = ('Theorems in coq/Props/C14.v prove for all columns, flag combinations and test sets that the Gallina model '
@@ -161,7 +176,7 @@ def _tests_obj(case):
         if ft == 'ts' or ft.startswith('float'):
             return t / 4
         if ft == 'bool':
-            return bool(t)
+            return bool(t) if t in (0, 1) else int(t)
         return int(t)
     l = [conv(t) for t in tests]
     if kind == 'set':
@@ -300,6 +315,20 @@ def features(case, model):
         f.append('empty-column')
     if len(set(rows)) < len(rows):
         f.append('duplicates')
+    if len(rows) >= 256: f.append('rows>=256')
+    if len(set(rows)) >= 256: f.append('distinct>=256')
+    if ft in ('istr', 'fstr'):
+        mx = max([len(r) for r in rows] + [0])
+        if mx >= 256: f.append('row-bytes>=256')
+        if mx >= 512: f.append('row-bytes>=512')
+        ds_ = set(rows)
+        if any(len(a) >= 256 and len(a) == len(b) and a[:-1] == b[:-1] and a != b for a in ds_ for b in ds_):
+            f.append('long-rows-differ-in-last-byte')
+        if any(len(a) >= 256 and len(a) != len(b) and (len(a) - len(b)) % 256 == 0 for a in ds_ for b in ds_):
+            f.append('row-lengths-congruent-mod-256')
+    if ft == 'istr' and any(len(c) != len(r) and len(r) >= 256 for c, r in zip(col, rows)):
+        f.append('long-row-chars!=bytes')
+    if ft == 'int64' and any(abs(r) > 2 ** 53 for r in rows): f.append('beyond-2^53')
     if ft == 'istr':
         if any(len(r) == 0 for r in rows): f.append('empty-string')
         if any(any(b >= 128 for b in r) for r in rows): f.append('multi-byte')
@@ -311,6 +340,7 @@ def features(case, model):
         f.append('flags:%d%d%d' % tuple(int(bool(x)) for x in case['flags']))
         d, order = _first_occ_perm(rows)
         if len(d) > 16: f.append('>16-distinct')
+        if rows and max(rows.count(x) for x in d) >= 256: f.append('multiplicity>=256')
         if order != list(range(len(d))): f.append('sort-permutes')
         if any(order[order[k]] != k for k in range(len(d))): f.append('sort-perm-not-involution')
         if ft == 'istr':
@@ -344,6 +374,22 @@ def features(case, model):
         hit = [r in set(tk) for r in rows]
         if any(hit): f.append('row-hit')
         if not all(hit) and rows: f.append('row-miss')
+        if len(set(tk)) >= 256: f.append('tests>=256-distinct')
+        rg = {'int8': (-128, 127), 'cat': (-128, 127), 'uint16': (0, 65535), 'int32': (-2 ** 31, 2 ** 31 - 1),
+              'bool': (0, 1)}.get(ft)
+        if rg and any(not (rg[0] <= t <= rg[1]) for t in tk): f.append('test-value-outside-column-dtype')
+        if len(set(tk)) >= max(_near_sort_threshold(len(rows)), 1):
+            f.append('tests>=numpy-sort-threshold')     # np.isin leaves its per-element loop (non-object dtypes)
+            if any((not h) and rows.count(r) > 1 for r, h in zip(rows, hit)): f.append('large-tests+duplicated-absent-row')
+            if any(h and rows.count(r) > 1 for r, h in zip(rows, hit)): f.append('large-tests+duplicated-member-row')
+        if ft in ('istr', 'fstr') and tk:
+            if any(len(t) >= 256 for t in tk): f.append('test-bytes>=256')
+            if any(len(r) >= 256 and h for r, h in zip(rows, hit)): f.append('long-row-hit')
+            if any(len(r) >= 256 and not h and any(len(t) == len(r) for t in tk) for r, h in zip(rows, hit)):
+                f.append('long-row-miss-same-length-test')
+            if any(len(r) >= 256 and not h and any(len(t) != len(r) and (len(t) - len(r)) % 256 == 0 for t in tk)
+                   for r, h in zip(rows, hit)):
+                f.append('long-row-miss-test-length-congruent-mod-256')
         if ft == 'istr' and tk:
             if any(r not in tk and any(t[:len(r)] == r for t in tk) for r in rows): f.append('row-is-proper-prefix-of-test')
             if any(r not in tk and any(r[:len(t)] == t for t in tk) for r in rows): f.append('test-is-proper-prefix-of-row')
@@ -384,6 +430,12 @@ def _plain_pool(ft):
         return [0, 6, -5, 4000], [None, 7]
     if ft == 'int8':
         return [0, -128, 127, 3], [None, 5]
+    if ft == 'int64':       # dtype extremes and neighbours beyond 2^53 (not representable as binary64)
+        return [0, -2 ** 63, 2 ** 63 - 1, 2 ** 53 + 1], [None, 2 ** 53]
+    if ft == 'float64':     # quarter units: 2^56 ticks = 2^54
+        return [0, 6, -5, 2 ** 56], [None, 7]
+    if ft == 'uint16':
+        return [0, 65535, 256, 3], [None, 255]
     return [0, -7, 2 ** 31 - 1, 3], [None, 5]
 
 
@@ -396,7 +448,316 @@ def _plain_extra(ft):
     return d
 
 
+# ------------------------------------------------------------------------------------------ regions beyond the small scope
+# (a) byte lengths >= 256 (one-byte length tables, `& 255`, `min(len, 255)`, uint8 counters): rows and test strings whose
+#     UTF-8 length sits on / around multiples of 256 and powers of two, in four encodings (1- to 4-byte characters, so
+#     that characters != bytes), with same-length neighbours that differ in the last / first byte and prefix pairs;
+# (b) row counts, distinct counts and multiplicities >= 256;
+# (c) test collections large enough for numpy to leave its per-element loop (np.isin switches to a sort- or table-based
+#     algorithm at len(tests) >= 10 * rows ** 0.145), for every container form, with duplicated column values inside and
+#     outside the collection;
+# (d) whatever small literal is NEW in the tree under test (harness/hot.py) is planted as a byte length, a row count, a
+#     distinct count and a test-collection size.
+LEN_EDGES_Q = [255, 256, 257, 300, 511, 512, 513, 1000]
+LEN_EDGES_T = [254, 255, 256, 257, 258, 300, 383, 384, 511, 512, 513, 767, 768, 769, 1000, 1023, 1024, 1025, 2047, 2048,
+               2049, 4095, 4096, 4097]
+COUNT_EDGES_Q = [255, 256, 257, 300]
+COUNT_EDGES_T = [127, 128, 129, 255, 256, 257, 300, 511, 512, 513, 1000]
+KINDS4 = ['list', 'set', 'array', 'tuple']
+PLAIN_FTS_X = PLAIN_FTS + ['int64', 'float64', 'uint16']
+_UNITS = ['n', 'é', '€', '\U00010000']      # 1-, 2-, 3-, 4-byte characters
+
+
+def _hot_edges(cap):
+    out = []
+    for k in hot.hot_sizes():
+        for v in (k - 1, k, k + 1, 2 * k - 1, 2 * k, 2 * k + 1, 3 * k):
+            if 1 <= v <= cap and v not in out:
+                out.append(v)
+    return out
+
+
+def _long(nbytes, style=0, tail='n', head=None):
+    """code points of a string of exactly `nbytes` UTF-8 bytes: a body of `style+1`-byte characters, padded with 'n',
+    ending in the ASCII character `tail` (and starting with `head` when given)."""
+    if nbytes <= 0:
+        return []
+    pre = head if (head and nbytes >= 2) else ''
+    n = nbytes - 1 - len(pre)
+    w = style + 1
+    body = _UNITS[style] * (n // w) + 'n' * (n % w)
+    return _cps(pre + body + tail)
+
+
+def _near_sort_threshold(nrows):
+    """the smallest test-collection size at which np.isin leaves its per-element loop for `nrows` rows"""
+    return int(math.ceil(10 * (max(nrows, 0) ** 0.145))) if nrows > 0 else 0
+
+
+def _padding(ft, m, wide, rng=None):
+    """m distinct values of the field type that are in neither _plain_pool(ft) list"""
+    if ft == 'bool':
+        return []
+    m = min(m, 1800)        # every value below stays inside its dtype (and exact in float32)
+    if ft in ('int8', 'cat'):
+        return [10 + i for i in range(min(m, 100))]
+    if ft == 'fstr':
+        return [[99 + i // 12, 99 + i % 12] for i in range(m)]
+    if ft in ('ts', 'float32', 'float64'):
+        return [100 + (3 if not wide else 4001) * i for i in range(m)]
+    if ft == 'uint16':
+        return [1000 + (37 if wide else 1) * i for i in range(m)]
+    if ft == 'int64':
+        return [2 ** 53 + 2 + i for i in range(m)] if not wide else [2 ** 40 + 12345678901 * i for i in range(m)]
+    step = min(7919 * 1000, (2 ** 31 - 1 - 100000) // max(m, 1))
+    return [100 + i for i in range(m)] if not wide else [100000 + step * i for i in range(m)]
+
+
+def _aliases(ft):
+    """test values just outside the column dtype that a cast to that dtype would fold onto members of _plain_pool(ft)"""
+    if ft in ('int8', 'cat'):
+        return [256, 128, -129, 259, -253, 383]
+    if ft == 'uint16':
+        return [65536, -1, 65536 + 256, 65539, -65533]
+    if ft == 'int32':
+        return [2 ** 32, 2 ** 31, 2 ** 32 - 7, 2 ** 32 + 3, -2 ** 31 - 1]
+    if ft == 'bool':
+        return [2, -1, 256]
+    return []
+
+
+def _gen_regions(tier, rng):
+    big = tier == 'thorough'
+    boost = 3 if hot.changed() else 1
+    hot_l = _hot_edges(6000 if big else 2100)
+    edges = (LEN_EDGES_T if big else LEN_EDGES_Q) + [v for v in hot_l if v not in (LEN_EDGES_T if big else LEN_EDGES_Q)]
+    k = 0
+    # ---- (a) long indexed strings: isin.  One column per encoding holding, for every edge length, the string ending in
+    #      'n' (twice for the first edges), its same-length neighbour ending in 'm', short strings; each distinct value is
+    #      looked up alone, then each absent same-length value, then mixtures.
+    for style in range(4):
+        ed = edges if style < 2 else (edges[::2] if big else edges[:6])
+        col = [_cps('a'), []]
+        for j, L in enumerate(ed):
+            col.append(_long(L, style, 'n'))
+            if j % 2 == 0:
+                col.append(_long(L, style, 'm'))
+            if j < 3:
+                col.append(_long(L, style, 'n'))
+        col += [_cps('bb'), _long(ed[0], style, 'n', head='m'), _cps('a')]
+        distinct = []
+        for c in col:
+            if c not in distinct:
+                distinct.append(c)
+        absent = [_long(L, style, 'q') for L in ed] + [_long(L, (style + 1) % 4, 'n') for L in ed[:4]] \
+            + [_long(L + 1, style, 'n') for L in ed if (L + 1) not in ed][:4]
+        lookups = [[d] for d in distinct] + [[a] for a in absent]
+        longs = [d for d in distinct if len(_enc(d)) >= 200]
+        lookups += [list(distinct), list(longs), [_cps('a'), longs[0], None, _cps('zz')], absent[:6] + [None],
+                    longs[1::2] + absent[::2] + [longs[1]], [None, longs[-1]], distinct[::-1] + absent]
+        for tests in lookups:
+            k += 1
+            yield {'op': 'isin', 'ft': 'istr', 'level': 'ops', 'col': col, 'tests': tests, 'tkind': 'list', 'via': 'method'}
+            if k % 3 == 0 or len(tests) > 3:
+                yield {'op': 'isin', 'ft': 'istr', 'level': 'mem' if k % 2 else 'h5', 'col': col, 'tests': tests,
+                       'tkind': KINDS4[k % 4], 'via': 'module' if k % 4 == 0 else 'method'}
+        # every (row length, test length) pair of edges, bodies identical: membership iff the lengths are equal
+        for Lr in ed:
+            yield {'op': 'isin', 'ft': 'istr', 'level': 'ops', 'col': [_long(Lr, style, 'n'), _cps('n')],
+                   'tests': [_long(Lt, style, 'n') for Lt in ed if Lt != Lr], 'tkind': 'list', 'via': 'method'}
+    # ---- (a) long indexed strings: unique
+    for style in range(4):
+        ed = edges if style < 2 else (edges[::2] if big else edges[:6])
+        for j, L in enumerate(ed):
+            L2 = ed[(j + 1) % len(ed)]
+            col = [_long(L, style, 'n'), _cps('a'), _long(L, style, 'm'), _long(L, style, 'n'), _long(L2, style, 'n'),
+                   _long(L, style, 'n', head='m'), _long(L, style, 'm')]
+            for fl in ([1, 1, 1], [0, 0, 0], FLAGS8[1 + (j + style) % 6]):
+                k += 1
+                yield {'op': 'unique', 'ft': 'istr', 'level': ['ops', 'ops', 'mem', 'h5'][k % 4], 'col': col, 'flags': fl}
+        allc = []
+        for L in ed:
+            allc += [_long(L, style, 'n'), _long(L, style, 'm')]
+        allc = allc + allc[::3] + [[], _cps('a')]
+        for fl in (FLAGS8 if big else [[1, 1, 1], [0, 1, 0], [1, 0, 1]]):
+            c2 = list(allc)
+            rng.shuffle(c2)
+            k += 1
+            yield {'op': 'unique', 'ft': 'istr', 'level': ['ops', 'mem', 'h5'][k % 3], 'col': c2, 'flags': fl}
+    # ---- (a) structured random: lengths from the edges, their +-1 / +-256 neighbours and short ones
+    pool_l = sorted(set(edges + [e + d for e in edges for d in (-256, 256, 1) if e + d > 0] + [0, 1, 2, 3]))
+    for _ in range((1500 if big else 160) * boost):
+        st = [rng.randrange(4), rng.randrange(4)]
+        lens = rng.sample(pool_l, rng.randint(2, 4)) + rng.sample(edges, 2)
+        vals = [_long(rng.choice(lens), rng.choice(st), rng.choice('nm')) for _ in range(rng.randint(2, 6))]
+        col = [rng.choice(vals) for _ in range(rng.randint(3, 12))]
+        level = rng.choice(['ops', 'ops', 'mem', 'h5'])
+        if rng.random() < 0.4:
+            yield {'op': 'unique', 'ft': 'istr', 'level': level, 'col': col, 'flags': rng.choice(FLAGS8)}
+        else:
+            near = [_long(rng.choice(lens), rng.choice(st), rng.choice('nmq')) for _ in range(rng.randint(0, 4))]
+            tests = rng.sample(vals, rng.randint(1, len(vals))) + near + [None] * rng.choice([0, 0, 1])
+            rng.shuffle(tests)
+            yield {'op': 'isin', 'ft': 'istr', 'level': level, 'col': col, 'tests': tests,
+                   'tkind': 'list' if level == 'ops' else rng.choice(KINDS4),
+                   'via': 'method' if level == 'ops' else rng.choice(['method', 'module'])}
+    # ---- (a) fixed strings of 256 and more bytes
+    for n in ([256, 300] + ([257, 512, 1000] if big else []) + [v for v in hot_l if 2 <= v <= 2100][:3]):
+        vals = [[110] * (n - 1) + [110], [110] * (n - 1) + [109], [110] * (n - 1), [109] + [110] * (n - 1), [97], [],
+                [110] * 255, [110] * min(n, 256)]
+        for lv in ('mem', 'h5'):
+            for col in ([vals[0], vals[1], vals[0], vals[2], vals[3]], [vals[6], vals[7], vals[4], vals[5], vals[1], vals[7]]):
+                for fl in ([1, 1, 1], [0, 0, 0]):
+                    yield {'op': 'unique', 'ft': 'fstr', 'level': lv, 'col': col, 'flags': fl, 'strlen': n}
+                for tests in ([vals[0]], [vals[1], None], [vals[2], vals[3]], [vals[6]], [vals[7], vals[4]], vals[:6]):
+                    k += 1
+                    yield {'op': 'isin', 'ft': 'fstr', 'level': lv, 'col': col, 'tests': tests, 'tkind': KINDS4[k % 4],
+                           'via': 'module' if k % 4 == 0 else 'method', 'strlen': n}
+    # ---- (b) row counts / distinct counts / multiplicities >= 256
+    cedges = (COUNT_EDGES_T if big else COUNT_EDGES_Q) + [v for v in _hot_edges(4000 if big else 700)
+                                                         if v not in (COUNT_EDGES_T if big else COUNT_EDGES_Q) and v >= 4]
+    words = [_cps(a + b) for a in 'abcdefghijklmnopqrstuvwxyzé€' for b in ['', 'a', 'b', 'é', 'zz', 'c', 'ab']] \
+        + [_cps(a + b + c) for a in 'abcdefghij' for b in 'klmnopqrst' for c in 'uvwxyzé€01']
+    words = [w for j, w in enumerate(words) if w not in words[:j]]
+    for d in cedges:
+        lv = ['ops', 'mem', 'h5'][k % 3]
+        k += 1
+        dist = rng.sample(words, min(d, len(words)))
+        col = dist + [rng.choice(dist) for _ in range(rng.randint(0, 40))]
+        rng.shuffle(col)
+        for fl in ([1, 1, 1], FLAGS8[1 + k % 6]):
+            yield {'op': 'unique', 'ft': 'istr', 'level': lv, 'col': col, 'flags': fl}
+        # one value d times (multiplicity >= 256) among a few others
+        col2 = [dist[0]] * d + dist[1:4] * 2
+        rng.shuffle(col2)
+        yield {'op': 'unique', 'ft': 'istr', 'level': lv, 'col': col2, 'flags': [1, 1, 1]}
+        yield {'op': 'isin', 'ft': 'istr', 'level': lv, 'col': col2[:40] + dist[4:8], 'tests': dist[1:d] + [None],
+               'tkind': 'list' if lv == 'ops' else KINDS4[k % 4], 'via': 'method'}
+        yield {'op': 'isin', 'ft': 'istr', 'level': lv, 'col': col, 'tests': dist[::2], 'tkind': 'list' if lv == 'ops' else
+               KINDS4[(k + 1) % 4], 'via': 'method'}
+        for ft in ('int8', 'int32', 'int64', 'float64', 'fstr', 'ts'):
+            pool, _e = _plain_pool(ft)
+            ex = _plain_extra(ft)
+            pad = _padding(ft, d, k % 2 == 0)
+            lv2 = 'mem' if k % 2 else 'h5'
+            k += 1
+            colp = [pool[k % 2]] * d + pool + pad[:3]          # one value d times: multiplicity >= 256
+            rng.shuffle(colp)
+            yield dict({'op': 'unique', 'ft': ft, 'level': lv2, 'col': colp, 'flags': [1, 1, 1]}, **ex)
+            if len(pad) >= d:
+                cold = pad + pool + [rng.choice(pad) for _ in range(20)]
+                rng.shuffle(cold)
+                yield dict({'op': 'unique', 'ft': ft, 'level': lv2, 'col': cold, 'flags': FLAGS8[1 + k % 7]}, **ex)
+                yield dict({'op': 'isin', 'ft': ft, 'level': lv2, 'col': colp[:50] + pad[:6] + pad[:3], 'tests': pad[2:d] + pool[1:2],
+                            'tkind': KINDS4[k % 4], 'via': 'method'}, **ex)
+    # ---- (c) non-indexed isin with a large test collection: exhaustive columns x every subset of the pool, each time
+    #      accompanied by 24 padding members (numpy's sort / table algorithms instead of the per-element loop)
+    for ft in PLAIN_FTS_X:
+        pool, extra = _plain_pool(ft)
+        ex = _plain_extra(ft)
+        subs = []
+        for kk in range(0, len(pool) + 1):
+            for sub in itertools.combinations(range(len(pool)), kk):
+                subs.append([pool[j] for j in sub])
+        for level in ('mem', 'h5'):
+            for n in range(0, ((4 if level == 'mem' else 3) if big else (3 if level == 'mem' else 2)) + 1):
+                for col in itertools.product(pool, repeat=n):
+                    for sub in subs:
+                        k += 1
+                        pad = _padding(ft, 24, k % 2 == 0)
+                        if ft == 'bool':
+                            pad = list(sub) * 12
+                        kinds = KINDS4[:3] if (n <= 2 and level == 'mem') else [KINDS4[k % 3]]
+                        al = _aliases(ft)
+                        for kind in kinds:
+                            t = pad + list(sub) + ([None] if k % 11 == 0 else []) + (pad[:2] if k % 5 == 0 else []) \
+                                + (al[k % 2::2] if (al and k % 3 == 0) else [])
+                            rng.shuffle(t)
+                            yield dict({'op': 'isin', 'ft': ft, 'level': level, 'col': list(col), 'tests': t, 'tkind': kind,
+                                        'via': 'module' if k % 4 == 0 else 'method'}, **ex)
+        # sizes around numpy's switch-over for growing row counts, and around the new literals of the tree under test
+        rows_list = [1, 2, 3, 5, 8, 13, 30, 100] + ([300, 1000] if big else []) + _hot_edges(1200)[:6]
+        for nrows in rows_list:
+            thr = _near_sort_threshold(nrows)
+            sizes = [thr - 1, thr, thr + 1, 2 * thr + 3] + _hot_edges(400)[:4]
+            for m in sizes:
+                for kind in KINDS4:
+                    k += 1
+                    pad = _padding(ft, m + 4, k % 2 == 0)
+                    members = rng.sample(pool, rng.randint(0, len(pool) - 1))
+                    t = (pad[4:4 + max(m - len(members), 0)] + members) if ft != 'bool' else (members * max(m // 2, 1))[:max(m, 1)]
+                    colv = [p for p in pool] + pad[:4]
+                    col = [rng.choice(colv) for _ in range(nrows)]
+                    rng.shuffle(t)
+                    yield dict({'op': 'isin', 'ft': ft, 'level': 'mem' if k % 3 else 'h5', 'col': col, 'tests': t,
+                                'tkind': kind, 'via': 'module' if k % 4 == 0 else 'method'}, **ex)
+    # structured random, all field types incl. indexed strings: 8..48 test values, rows with duplicates
+    for _ in range((3000 if big else 500) * boost):
+        ft = rng.choice(PLAIN_FTS_X + ['istr'])
+        nrows = rng.choice([1, 2, 3, 4, 6, 10, 20, 40])
+        m = rng.randint(8, 48)
+        level = rng.choice(['mem', 'mem', 'h5'])
+        kind = rng.choice(KINDS4)
+        via = rng.choice(['method', 'method', 'module'])
+        if ft == 'istr':
+            AB = [_cps(s_) for s_ in ALPHA_BIG]
+            extra_words = words[:60]
+            colv = rng.sample(AB, 5) + rng.sample(extra_words, 3)
+            col = [rng.choice(colv) for _ in range(nrows)]
+            t = rng.sample(AB + extra_words, min(m, len(AB) + len(extra_words)))
+            yield {'op': 'isin', 'ft': 'istr', 'level': level, 'col': col, 'tests': t, 'tkind': kind, 'via': via}
+            continue
+        pool, extra = _plain_pool(ft)
+        ex = _plain_extra(ft)
+        pad = _padding(ft, m + 6, rng.random() < 0.5)
+        colv = pool + pad[:6]
+        col = [rng.choice(colv) for _ in range(nrows)]
+        t = rng.sample(pad, min(m, len(pad))) + rng.sample(pool, rng.randint(0, len(pool))) if pad else \
+            [rng.choice(pool) for _ in range(m)]
+        if rng.random() < 0.15:
+            t.append(None)
+        if rng.random() < 0.25 and _aliases(ft):
+            t += rng.sample(_aliases(ft), 2)
+        if rng.random() < 0.3 and kind != 'set':
+            t += t[:3]
+        rng.shuffle(t)
+        yield dict({'op': 'isin', 'ft': ft, 'level': level, 'col': col, 'tests': t, 'tkind': kind, 'via': via}, **ex)
+
+
 def gen(tier, rng):
+    """small scope + malformed stream, then the regions beyond it; the (model-)expensive region cases are spread evenly
+    over the sequence because the model shards are contiguous slices of it."""
+    base = list(_gen_small(tier, rng))
+    heavy, light = [], []
+    for c in _gen_regions(tier, rng):
+        (heavy if _weight(c) > 600 else light).append(c)
+    base += light
+    if not heavy:
+        for c in base:
+            yield c
+        return
+    step = max(1, len(base) // len(heavy))
+    j = 0
+    for i, c in enumerate(base):
+        yield c
+        if i % step == 0 and j < len(heavy):
+            yield heavy[j]
+            j += 1
+    for c in heavy[j:]:
+        yield c
+
+
+def _weight(case):
+    """rough size of a case (bytes / values it carries)"""
+    n = 0
+    for x in case.get('col', []):
+        n += len(x) if isinstance(x, list) else 1
+    for x in (case.get('tests') or []):
+        n += len(x) if isinstance(x, list) else 1
+    return n
+
+
+def _gen_small(tier, rng):
     big = tier == 'thorough'
     A6 = [_cps(s) for s in ALPHA6]
     AB = [_cps(s) for s in ALPHA_BIG]
@@ -539,6 +900,15 @@ def shrink(case):
     if 'raw' in case:
         return
     col = case['col']
+    if len(col) > 8:                       # halves first (long columns)
+        for part in (col[:len(col) // 2], col[len(col) // 2:]):
+            c = dict(case); c['col'] = part
+            yield c
+    if case['op'] == 'isin' and case['tests'] and len(case['tests']) > 8:
+        t = case['tests']
+        for part in (t[:len(t) // 2], t[len(t) // 2:]):
+            c = dict(case); c['tests'] = part
+            yield c
     for i in range(len(col)):
         c = dict(case); c['col'] = col[:i] + col[i + 1:]
         yield c
